@@ -203,3 +203,23 @@ M("c08_fixed_len_returns_self_shared", "C08", "ak/color.py",
 M("c08_eq_ignores_colors_of_single_chunk", "C08", "ak/color.py",
   "        if isinstance(other, str):\n            return self.is_plain() and self.text == other\n\n        return NotImplemented\n\n    def __iadd__",
   "        if isinstance(other, str):\n            return self.text == other\n\n        return NotImplemented\n\n    def __iadd__")
+
+# ---------------------------------------------------------------- C09
+M("c09_revert_strip_regex", "C09", "ak/color.py",
+  'cls._SEQ_RE = re.compile("\\033\\\\[[;:\\\\d]*m")', 'cls._SEQ_RE = re.compile("\\033\\\\[[;\\\\d]*m")')
+M("c09_gray_ramp_base", "C09", "ak/color.py", "                color = 232 + shade", "                color = 231 + shade")
+M("c09_cube_multipliers_swapped", "C09", "ak/color.py",
+  "            color = 16 + r * 36 + g * 6 + b", "            color = 16 + r * 6 + g * 36 + b")
+M("c09_upper_bound_exclusive", "C09", "ak/color.py",
+  "            if color < 0 or color > 255:", "            if color < 0 or color >= 255:")
+M("c09_no_suffix_for_bg_only", "C09", "ak/color.py",
+  "        if color_codes:\n            color_prefix = \"\\033[\" + \";\".join(c for c in color_codes) + \"m\"\n            color_suffix = \"\\033[0m\"",
+  "        if color_codes:\n            color_prefix = \"\\033[\" + \";\".join(c for c in color_codes) + \"m\"\n            color_suffix = \"\\033[0m\" if (color is not None or len(color_codes) > 1) else \"\"")
+M("c09_blink_crossed_codes_swapped", "C09", "ak/color.py",
+  "            if blink:\n                color_codes.append(\"5\")", "            if blink:\n                color_codes.append(\"6\")")
+M("c09_cube_component_6_accepted", "C09", "ak/color.py",
+  "            if len(color) != 3 or any(c < 0 or c > 5 for c in color):",
+  "            if len(color) != 3 or any(c < 0 or c > 6 for c in color):")
+M("c09_bytes_suffix_missing_for_effects_only", "C09", "ak/color.py",
+  "        if make_bytes:\n            color_prefix = color_prefix.encode()\n            color_suffix = color_suffix.encode()",
+  "        if make_bytes:\n            color_prefix = color_prefix.encode()\n            color_suffix = color_suffix.encode() if (color is not None or bg_color is not None) else b\"\"")
